@@ -1414,7 +1414,14 @@ class Engine:
             for h in s.handlers:
                 if self.handler_matches(h, e, fr):
                     if h.name:
-                        fr.assign(h.name, self.exc_value(e))
+                        if self.contract is not None and self.contract.extra.get('exceptions_as_bare_failures'):
+                            # the exception instance travels on as data where a Failure may also travel (a list of
+                            # (payload, error) pairs): same representation as a Failure, with the ghost `bare` set
+                            from . import heap as H_
+                            fr.assign(h.name, H_.alloc(self, 'Failure', {'exc_tag': vint(self.exc.tag(e.cls)),
+                                                                         'bare': vbool(True)}))
+                        else:
+                            fr.assign(h.name, self.exc_value(e))
                     saved = self.cur_exc
                     self.cur_exc = e
                     try:
